@@ -180,12 +180,18 @@ async fn many_refusals(w: &World, n: usize) -> Result<String, Fail> {
     let set = CertSet { ca: w.t.ca.clone(), server: w.t.server.clone(), client: w.t.client.clone() };
     let addr = net::start_server(&set).map_err(|e| fail("setup", "server", e.to_string()))?;
     for i in 0..n {
-        let peer = if i % 2 == 0 { RawConn::connect(addr, &w.t.ca, None).await } else { RawConn::connect(addr, &w.t.ca, Some(&w.selfsigned)).await };
-        if let Ok(c) = peer {
-            // under TLS 1.3 the dial itself may succeed before the server has judged the peer
-            let _ = tokio::time::timeout(Duration::from_millis(300), c.conn.closed()).await;
+        let dial = async { if i % 2 == 0 { RawConn::connect(addr, &w.t.ca, None).await } else { RawConn::connect(addr, &w.t.ca, Some(&w.selfsigned)).await } };
+        let mut unanswered = false;
+        match tokio::time::timeout(Duration::from_secs(3), dial).await {
+            Ok(Ok(c)) => {
+                // under TLS 1.3 the dial itself may succeed before the server has judged the peer
+                let _ = tokio::time::timeout(Duration::from_millis(300), c.conn.closed()).await;
+            }
+            Ok(Err(_)) => {}
+            // neither accepted nor refused within 3 s: ask at once whether the server still serves
+            Err(_) => unanswered = true,
         }
-        if (i + 1) % 100 == 0 && !try_register(RawConn::connect(addr, &w.t.ca, Some(&w.t.client)).await, "/c15ns/afterrefusals").await {
+        if ((i + 1) % 100 == 0 || unanswered) && !matches!(tokio::time::timeout(Duration::from_secs(10), async { try_register(RawConn::connect(addr, &w.t.ca, Some(&w.t.client)).await, "/c15ns/afterrefusals").await }).await, Ok(true)) {
             return Err(fail("refused-trusted-peer", "after-many-refusals", format!("after {} peers without a valid certificate had been refused, a certified client could no longer register a stream", i + 1)));
         }
     }
